@@ -109,6 +109,28 @@ class Unit:
         if canary:
             self.crate_name = self.name + '_canary'
         secs = parse_ctr(self.ctr_path)
+        # @@import UNIT NAME...: reuse sections (with their contracts) of another unit; they are re-verified here
+        # but belong to the other unit's properties (props cleared)
+        expanded = []
+        for s in secs:
+            if s.kind != 'import':
+                expanded.append(s)
+                continue
+            other = parse_ctr(os.path.join(VERIF, 'units', s.args[0] + '.ctr'))
+            for name in s.args[1:]:
+                found = None
+                for o in other:
+                    oname = o.args[1] if o.kind in ('fn', 'type', 'const', 'macro', 'lift') and len(o.args) > 1 else (o.args[0] if o.args else '')
+                    if o.kind == 'lift':
+                        oname = o.opt('as')
+                    if oname == name:
+                        found = o
+                        break
+                if found is None:
+                    raise ExtractError('@@import: %s not found in unit %s' % (name, s.args[0]))
+                found.args = [a for a in found.args if not a.startswith('props=')]
+                expanded.append(found)
+        secs = expanded
         for s in secs:
             if s.kind == 'logmacros':
                 self.extra_log_macros += s.args
@@ -199,6 +221,9 @@ class Unit:
             txt = re.sub(r'\bfn\s+' + re.escape(fn) + r'\b', 'fn ' + fn + '__canary', txt, count=1)
         if header is not None:
             h = re.sub(r'\s+', ' ', header.strip())
+            if trait and 'inherent' in s.args and not canary:
+                h = re.sub(r'^(impl(?:\s*<[^>]*>)?)\s+.*?\sfor\s+', r'\1 ', h)
+                notes.add('R9', 'method of `impl %s for ..` emitted in an inherent impl (single implementor; call syntax unchanged)' % trait)
             if canary and trait:
                 # the canary copy of a trait method lives in an inherent impl of the same type
                 h = re.sub(r'^(impl(?:\s*<[^>]*>)?)\s+.*?\sfor\s+', r'\1 ', h)
